@@ -256,3 +256,56 @@ Lemma n_fwd_map_OFail : forall u l, n_fwd u (map OFail l) = 0%nat.
 Proof. intros u l; induction l as [|x l IH]; simpl; [reflexivity | exact IH]. Qed.
 Lemma n_cancel_map_OFail : forall u l, n_cancel u (map OFail l) = 0%nat.
 Proof. intros u l; induction l as [|x l IH]; simpl; [reflexivity | exact IH]. Qed.
+
+(* ---------------- the cancel list: remove1, sift ---------------- *)
+Lemma zmem_cnt : forall u l, zmem u l = (0 <? cnt u l)%nat.
+Proof.
+  intros u l; induction l as [|x l IH]; simpl; [reflexivity|].
+  destruct (x =? u); simpl; [reflexivity | exact IH].
+Qed.
+
+Lemma cnt_remove1_other : forall u v l, v <> u -> cnt u (remove1 v l) = cnt u l.
+Proof.
+  intros u v l H; induction l as [|x l IH]; simpl; [reflexivity|].
+  destruct (x =? v) eqn:E.
+  - destruct (x =? u) eqn:E2; [lia | reflexivity].
+  - simpl. rewrite IH. reflexivity.
+Qed.
+
+Lemma cnt_remove1_same : forall u l, zmem u l = true -> (cnt u (remove1 u l) + 1)%nat = cnt u l.
+Proof.
+  intros u l; induction l as [|x l IH]; simpl; intros H; [discriminate|].
+  destruct (x =? u) eqn:E; simpl in *; [lia|]. rewrite E. simpl. apply IH. exact H.
+Qed.
+
+Lemma sift_spec : forall u us cl k cl' o,
+  sift cl us = (k, cl', o) ->
+  (cnt u k + n_cancel u o)%nat = cnt u us /\ n_fwd u o = 0%nat /\ n_fail u o = 0%nat
+  /\ n_cancel u o = Nat.min (cnt u cl) (cnt u us) /\ (cnt u cl' + n_cancel u o)%nat = cnt u cl.
+Proof.
+  intros u us; induction us as [|x us IH]; intros cl k cl' o H; simpl in H.
+  - injection H as <- <- <-. simpl. repeat split; try reflexivity; unfold n_cancel; simpl; lia.
+  - destruct (zmem x cl) eqn:E.
+    + destruct (sift (remove1 x cl) us) as [[k1 c1] o1] eqn:E1. injection H as <- <- <-.
+      destruct (IH _ _ _ _ E1) as [A [B [C [D F]]]].
+      unfold n_fwd, n_fail, n_cancel in *. simpl.
+      destruct (x =? u) eqn:E2.
+      * apply Z.eqb_eq in E2; subst x. pose proof (cnt_remove1_same u cl E). repeat split; lia.
+      * rewrite cnt_remove1_other in D, F by lia. repeat split; lia.
+    + destruct (sift cl us) as [[k1 c1] o1] eqn:E1. injection H as <- <- <-.
+      destruct (IH _ _ _ _ E1) as [A [B [C [D F]]]]. simpl.
+      destruct (x =? u) eqn:E2.
+      * apply Z.eqb_eq in E2; subst x. rewrite zmem_cnt in E. repeat split; lia.
+      * repeat split; lia.
+Qed.
+
+Lemma sift_kept_incl : forall us cl k cl' o, sift cl us = (k, cl', o) -> forall x, In x k -> In x us.
+Proof.
+  intros us; induction us as [|x us IH]; intros cl k cl' o H y Hy; simpl in H.
+  - injection H as <- <- <-. exact Hy.
+  - destruct (zmem x cl).
+    + destruct (sift (remove1 x cl) us) as [[k1 c1] o1] eqn:E1. injection H as <- <- <-.
+      right. eapply IH; eauto.
+    + destruct (sift cl us) as [[k1 c1] o1] eqn:E1. injection H as <- <- <-.
+      destruct Hy as [->|Hy]; [left; reflexivity | right; eapply IH; eauto].
+Qed.
